@@ -78,6 +78,12 @@ def execute(darsia, ctx, key):
         M.update_params(dim=2, mass_coeff=float(op[1]), diffusion_coeff=float(op[2]))
         x0 = _data("m")
         return M(x0.copy(), rhs=x0 * 2.0)
+    if name == "MGH":          # MGH|seed : multigrid with heterogeneous (array) coefficients set once at construction
+        if "MGH" not in ctx:
+            rs = np.random.RandomState(7)
+            ctx["MGH"] = darsia.MG(depth=1, smoother_iterations=2, maxiter=2, dim=2, mass_coeff=1.0 + rs.rand(16, 12), diffusion_coeff=0.5 + rs.rand(16, 12))
+        x0 = _data("m")
+        return ctx["MGH"](x0.copy(), rhs=x0 * float(op[1]))
     if name == "SBTVD":        # SBTVD|img|mu|ell
         return darsia.split_bregman_tvd(_data(op[1]), mu=float(op[2]), ell=float(op[3]), max_num_iter=4, eps=None)
     if name == "TVD":          # TVD|img|weight
@@ -114,6 +120,7 @@ ALPHABET = {
     "jacobi-array-coefficients": ["JACA|1.0", "JACA|3.0"],
     "jacobi-default-dim": ["H1dim|a|1.0|1.0|2", "H1dim|v|1.0|1.0|3", "H1|a|1.0|1.0|default"],
     "mg-object": ["MG|1.0|1.0", "MG|1.0|0.1"],
+    "mg-heterogeneous": ["MGH|2.0", "MGH|3.0"],
     "newton-direct": ["W1|newton|direct|0", "W1|newton|direct|1"],
     "bregman-amg": ["W1|bregman|amg|0", "W1|bregman|amg|1"],
     "bregman-adaptive": ["W1|adaptive|direct|0", "W1|adaptive|direct|1"],
@@ -181,6 +188,37 @@ def letter_to_key(letter):
     return f"JAC|1.0|{mu / 10:.1f}|{float(h):.1f}"
 
 
+def anderson_whitebox(ck, darsia):
+    """White-box conformance of AndersonAcceleration's column bookkeeping with Anderson.tla (drift / observation only)."""
+    import numpy as np
+    ck.sany("Anderson")
+    notes = []
+    for depth, restart in [(2, 3), (2, 4), (3, 0), (3, 5), (1, 2)]:
+        cfg = os.path.join(ck.work, f"Anderson_{depth}_{restart}.cfg")
+        with open(cfg, "w") as f:
+            f.write(f"SPECIFICATION Spec\nCONSTANTS Depth = {depth}\n Restart = {restart}\n MaxK = 9\nINVARIANT Emit\nCHECK_DEADLOCK FALSE\n")
+        r = ck.tlc("Anderson", cfg, workers=1, label="anderson-model")
+        model = {p[1]: set(p[2]) for p in r.printed("COLS")}
+        cfg2 = os.path.join(ck.work, f"Anderson_{depth}_{restart}_used.cfg")
+        with open(cfg2, "w") as f:
+            f.write(f"SPECIFICATION Spec\nCONSTANTS Depth = {depth}\n Restart = {restart}\n MaxK = 9\nINVARIANT UsedColumnsValid\nCHECK_DEADLOCK FALSE\n")
+        r2 = ck.tlc("Anderson", cfg2, workers=1, label="anderson-observation", expect_ok=False)
+        if r2.violated:
+            notes.append(f"depth={depth}, restart={restart}: a zero column enters the least-squares mix after a restart (unaccelerated step)")
+        aa = darsia.AndersonAcceleration(dimension=None, depth=depth, restart=restart if restart else None)
+        rs = np.random.RandomState(depth * 10 + restart)
+        x = rs.rand(6)
+        for k in range(10):
+            g = 0.5 * np.cos(x) + rs.rand(6) * 0.1
+            x = aa(g, g - x, k)
+            real = {c for c in range(depth) if np.any(aa._Fk[:, c] != 0)}
+            if model.get(k + 1) is not None and real != model[k + 1]:
+                ck.note(f"MODEL-DRIFT: Anderson(depth={depth}, restart={restart}) after call {k}: non-zero history columns {sorted(real)} vs model {sorted(model[k + 1])}")
+    if notes:
+        ck.cov["anderson_observations"] = notes
+        print("OBSERVATION (not a listed property): " + "; ".join(notes))
+
+
 def run(ck, replay=None):
     ck.sany("JacobiImpl", "Stateless")
     r = ck.model_check("JacobiImpl", "JacobiImpl_fixed.cfg", workers=2)
@@ -231,6 +269,7 @@ def run(ck, replay=None):
         info[tid] = seq
         for j, e in enumerate(rs):
             events.append(dict(e, tid=tid, pos=j, prev=seq[j - 1] if j else ""))
+    anderson_whitebox(ck, sys.modules["darsia"])
     bad = ck.validate("Stateless", "Trace.cfg", events)
     for b in bad:
         e = b["event"]
